@@ -16,12 +16,13 @@ RULE = ("k in {2,3,4} objects on one file under a common buffered state: either 
         "the file is probed without the library after the common exit and must hold every write; afterwards "
         "every object is read once. Strata: item_writes (no clear/reset) and clear_reset (load-free "
         "mutators as first touch) and sessions (2-3 objects, several buffered sessions separated by unbuffered "
-        "phases, tiny key/value alphabet so that contents and their serialised forms recur). distinct = case hash; non-trivial = >= 2 objects touched the buffer and "
+        "phases, tiny key/value alphabet so that contents and their serialised forms recur) and small_cap (backend-"
+        "wide context with a capacity the writes exceed: forced flushes by whichever object is picked). distinct = case hash; non-trivial = >= 2 objects touched the buffer and "
         ">= 1 wrote.")
 ASSUMPTIONS = ["objects in *different* buffered states on one file are not generated (documented as unsupported)"]
-STRATA = ["item_writes", "clear_reset", "sessions"]
-PER = {"quick": {"item_writes": 1000, "clear_reset": 600, "sessions": 600},
-       "thorough": {"item_writes": 6000, "clear_reset": 3000, "sessions": 6000}}
+STRATA = ["item_writes", "clear_reset", "sessions", "small_cap"]
+PER = {"quick": {"item_writes": 1000, "clear_reset": 600, "sessions": 600, "small_cap": 600},
+       "thorough": {"item_writes": 6000, "clear_reset": 3000, "sessions": 6000, "small_cap": 4000}}
 ITEM_MUT = ["setitem", "delitem", "pop", "popitem", "update", "setdefault", "insert", "append", "extend",
             "iadd", "remove", "reverse"]
 
@@ -144,8 +145,16 @@ def make_case(spec, i):
         if r.random() < 0.3:
             steps.extend(gen.gen_program(g, ms, 1, p_read=0.7, depth=2, handles=[h]))
     mode = r.choice(["backend", "obj"])
+    small = spec["stratum"] == "small_cap"
+    if small:
+        # a capacity that the writes exceed: forced flushes happen in the middle of the common buffered state and
+        # may be carried out by any of the objects, also by one that has only read
+        mode = "backend"
     if mode == "backend":
-        st = {"enter": "backend", "cap": None}
+        cap = None
+        if small:
+            cap = r.choice([0, 1, 5, 20, 60, 150]) if info.strategy == "serialized" else r.choice([0, 0, 1])
+        st = {"enter": "backend", "cap": cap}
         steps.append(st)
         ms.enter(st)
     else:
@@ -156,7 +165,7 @@ def make_case(spec, i):
             steps.append(st)
             ms.enter(st)
     actors = [h for h in range(k) if roles[h] != "n"]
-    flt = None if spec["stratum"] == "clear_reset" else ITEM_MUT
+    flt = None if spec["stratum"] in ("clear_reset", "small_cap") else ITEM_MUT
     n = r.choice([3, 5, 8, 12])
     for _ in range(n):
         h = r.choice(actors)
@@ -207,10 +216,13 @@ def make_case(spec, i):
         steps.append({"new_root": k, "res": 0})
         ms.add_root(k, 0)
         steps.append({"op": "call", "h": k, "path": [], "args": []})
-    return {"cls": info.name, "cfg": spec["cfg"], "res": [init], "roots": roots, "steps": steps,
+    case = {"cls": info.name, "cfg": spec["cfg"], "res": [init], "roots": roots, "steps": steps,
             "stratum": spec["stratum"], "roles": roles, "mode": mode,
             "oracle": {"results": True, "resource_strict": True, "resource_each_step": False,
                        "final_call": True}}
+    if small:
+        case["small_capacity"] = True
+    return case
 
 
 def _nontrivial(case, sess):
